@@ -51,6 +51,10 @@ func NewGuard(data []byte, endFlush bool) (*GuardRegion, error) {
 	if pages == 0 {
 		pages = 1
 	}
+	if !endFlush {
+		// room for a dirty capacity tail (see below)
+		pages += 2
+	}
 	total := (pages + 2) * pageSize
 	mem, err := syscall.Mmap(-1, 0, total, syscall.PROT_READ|syscall.PROT_WRITE, syscall.MAP_ANON|syscall.MAP_PRIVATE)
 	if err != nil {
@@ -67,11 +71,20 @@ func NewGuard(data []byte, endFlush bool) (*GuardRegion, error) {
 		start = (pages+1)*pageSize - n
 	}
 	copy(mem[start:], data)
+	capEnd := start + n
+	if !endFlush {
+		// the slice handed to the library is a prefix of a larger buffer of the caller: the bytes between
+		// len and cap are the caller's (non-zero) and must be neither read as content nor written
+		capEnd = (pages + 1) * pageSize
+		for i := start + n; i < capEnd; i++ {
+			mem[i] = 0xA5 ^ byte(i*31)
+		}
+	}
 	g := &GuardRegion{all: mem}
 	regionsMu.Lock()
 	allRegions = append(allRegions, g)
 	regionsMu.Unlock()
-	g.Payload = mem[start : start+n : start+n]
+	g.Payload = mem[start : start+n : capEnd]
 	g.lo = uintptr(unsafe.Pointer(&mem[0]))
 	g.hi = g.lo + uintptr(total)
 	g.sum = sumBytes(g.Payload)
@@ -168,5 +181,5 @@ func (g *GuardRegion) Words() []uint64 {
 	if len(g.Payload) == 0 {
 		return nil
 	}
-	return unsafe.Slice((*uint64)(unsafe.Pointer(&g.Payload[0])), len(g.Payload)/8)
+	return unsafe.Slice((*uint64)(unsafe.Pointer(&g.Payload[0])), cap(g.Payload)/8)[:len(g.Payload)/8]
 }
